@@ -3,6 +3,7 @@
 From Coq Require Import ZArith Znumtheory List Bool String Lia Permutation.
 From FV Require Import Lib.RustInt C12.Carve C12.Gen C12.Path C12.Model.
 Import ListNotations.
+Open Scope list_scope.
 Open Scope Z_scope.
 Ltac Zify.zify_post_hook ::= Z.div_mod_to_equations.
 
@@ -169,7 +170,7 @@ Lemma chain_weaken seq : forall m m', chain m seq -> (m | m') -> chain m' seq.
 Proof.
   destruct seq as [|[[s al] len] r]; intros m m' H D; cbn [chain] in *; [exact I|].
   destruct H as (Hw & Hd & Hc). split; [exact Hw|]. split; [|exact Hc].
-  eapply Z.divide_trans; eauto.
+  exact (Z.divide_trans _ _ _ Hd D).
 Qed.
 
 Lemma chain_wf seq : forall m, chain m seq -> Forall entry_wf seq.
@@ -182,7 +183,7 @@ Lemma end_addr_aligned seq : forall m a, chain m seq -> (m | a) -> end_addr a se
 Proof.
   induction seq as [|[[s al] len] r IH]; intros m a H D; cbn [end_addr total]; [lia|].
   cbn [chain] in H. destruct H as (Hw & Hd & Hc). pose proof Hw as (Hp & Hs & Hds & Hl).
-  assert (Hda : (al | a)) by (eapply Z.divide_trans; eauto).
+  assert (Hda : (al | a)) by exact (Z.divide_trans _ _ _ Hd D).
   destruct (Z.eqb_spec len 0) as [->|Hne].
   - rewrite (IH al a Hc Hda). lia.
   - rewrite (pad_zero a al Hp Hda).
@@ -242,10 +243,9 @@ Proof.
   assert (Hal : ae_align e <> 0) by (apply pow2_le8_cases in Hp; lia).
   assert (Hdm : (ae_align e | m)) by (apply Z.mod_divide; assumption).
   unfold inst. cbn [filter]. destruct (cond_holds c h (ae_cond e)).
-  - cbn [map chain]. repeat split; auto.
-    + apply Z.mod_divide; assumption.
-    + apply count_nonneg; exact Hc.
-    + apply IH. exact Hr.
+  - cbn [map chain]. split; [|split; [exact Hdm|apply IH; exact Hr]].
+    unfold entry_wf. split; [exact Hp|]. split; [exact Hs|].
+    split; [apply Z.mod_divide; assumption|apply count_nonneg; exact Hc].
   - eapply chain_weaken; [apply IH; exact Hr|exact Hdm].
 Qed.
 
@@ -333,8 +333,9 @@ Qed.
 Lemma slices_match_lengths a0 seq : forall l, slices_match a0 seq l ->
   map snd l = map (fun e => snd e * fst (fst e)) seq.
 Proof.
-  induction seq as [|[[s al] len] r IH]; intros [|[o b] r'] H; cbn in H; try tauto; [reflexivity|].
-  destruct H as (-> & _ & H). cbn. f_equal. apply IH. exact H.
+  induction seq as [|[[s al] len] r IH]; intros [|[o b] r'] H; cbn [slices_match] in H; try contradiction.
+  - reflexivity.
+  - destruct H as (-> & _ & H). cbn [map fst snd]. f_equal. apply IH. exact H.
 Qed.
 
 (* ------------------------------------------------------------------ the extracted sequences *)
@@ -388,39 +389,47 @@ Proof.
   - apply aligns_inst. pose proof ft_static_ok as H. unfold static_ok in H.
     apply andb_true_iff in H. tauto.
   - unfold slack. lia.
-  - unfold slack in *. destruct (total (inst c h ft_allocs) =? 0); lia.
+  - unfold slack in *. destruct (Z.eqb_spec (total (inst c h ft_allocs)) 0); lia.
 Qed.
 
+Lemma total_lt_required c h : required_buffer_size c h < U64 -> total (inst c h ft_allocs) < U64.
+Proof.
+  rewrite required_eq_total. cbv zeta. unfold slack.
+  destruct (Z.eqb_spec (total (inst c h ft_allocs)) 0); lia.
+Qed.
+
+(* the advertised size is representable (it was computed in usize): then too short a buffer is
+   reported as None, never a panic *)
 Theorem ft_carve_short c h a n :
-  counts_nonneg c -> 0 <= a -> 0 <= n -> a + n + 8 <= U64 ->
+  counts_nonneg c -> 0 <= a -> 0 <= n -> a + n + 8 <= U64 -> required_buffer_size c h < U64 ->
   n < total (inst c h ft_allocs) -> carve a n (inst c h ft_allocs) = Short.
 Proof.
-  intros Hc Ha Hn Hb Hlt. apply carve_short; auto; [|lia].
-  eapply chain_wf. apply ft_chain; exact Hc.
+  intros Hc Ha Hn Hb Hr Hlt. apply carve_short; auto.
+  - eapply chain_wf. apply ft_chain; exact Hc.
+  - apply total_lt_required; exact Hr.
 Qed.
 
 (* n < required - slack  ==>  InsufficientMemory, in terms of the advertised size itself *)
 Theorem ft_carve_short_required c h a n :
-  counts_nonneg c -> 0 <= a -> 0 <= n -> a + n + 8 <= U64 ->
+  counts_nonneg c -> 0 <= a -> 0 <= n -> a + n + 8 <= U64 -> required_buffer_size c h < U64 ->
   n + slack < required_buffer_size c h -> carve a n (inst c h ft_allocs) = Short.
 Proof.
-  intros Hc Ha Hn Hb Hlt. apply ft_carve_short; auto.
+  intros Hc Ha Hn Hb Hr Hlt. apply ft_carve_short; auto.
   rewrite required_eq_total in Hlt. cbv zeta in Hlt. unfold slack in Hlt.
-  destruct (total (inst c h ft_allocs) =? 0); lia.
+  destruct (Z.eqb_spec (total (inst c h ft_allocs)) 0); lia.
 Qed.
 
 Theorem ft_carve_never_panics c h a n :
-  counts_nonneg c -> 0 <= a -> 0 <= n -> a + n + 8 <= U64 ->
+  counts_nonneg c -> 0 <= a -> 0 <= n -> a + n + 8 <= U64 -> required_buffer_size c h < U64 ->
   carve a n (inst c h ft_allocs) <> Panic.
 Proof.
-  intros Hc Ha Hn Hb.
+  intros Hc Ha Hn Hb Hr.
   pose proof (chain_wf _ _ (ft_chain c h Hc)) as Hw.
-  destruct (Z.lt_ge_cases n (total (inst c h ft_allocs))) as [Hlt|Hge].
-  - rewrite ft_carve_short by auto. discriminate.
-  - destruct (carve_from_exact _ a a n Hw Ha Hn Hb ltac:(lia)) as [I1 I2].
-    destruct (Z.lt_ge_cases n (end_addr a (inst c h ft_allocs) - a)) as [H1|H2].
-    + unfold carve. rewrite I1 by exact H1. discriminate.
-    + unfold carve. destruct (I2 H2) as [l ->]. discriminate.
+  pose proof (total_lt_required c h Hr) as Ht.
+  destruct (carve_from_exact _ a a n Hw Ha Hn Hb Ht) as [I1 I2].
+  destruct (Z.lt_ge_cases n (end_addr a (inst c h ft_allocs) - a)) as [H1|H2].
+  - unfold carve. rewrite I1 by exact H1. discriminate.
+  - unfold carve. destruct (I2 H2) as [l ->]. discriminate.
 Qed.
 
 Theorem ft_carve_disjoint_inrange c h a n l :
@@ -446,10 +455,10 @@ Qed.
 (* HarfBuzzOutlineMemory::new: the alignments are NOT non-increasing (u16, u8, then 4-aligned deltas);
    the buffer still suffices because required_buffer_size also counts the `unscaled` buffer
    (8 * max_other_points) that this constructor never allocates. *)
-Lemma hb_split : hb_allocs = firstn 3 hb_allocs ++ skipn 3 hb_allocs.
+Lemma hb_split : hb_allocs = (firstn 3 hb_allocs ++ skipn 3 hb_allocs)%list.
 Proof. reflexivity. Qed.
 
-Lemma inst_app c h l1 l2 : inst c h (l1 ++ l2) = inst c h l1 ++ inst c h l2.
+Lemma inst_app c h l1 l2 : inst c h (l1 ++ l2)%list = (inst c h l1 ++ inst c h l2)%list.
 Proof. unfold inst. rewrite filter_app, map_app. reflexivity. Qed.
 
 Lemma hb_static_halves :
@@ -577,9 +586,6 @@ Theorem outer_history_free run inner_cfg cff auto s s' cfg :
 Proof.
   destruct gen_outer_holds as (Hc & _ & _ & Ht).
   unfold outer_reconfigure. rewrite Hc.
-  assert (Hpick : forall f (new old old' : Z), pick hinting_instance_table f new old = pick hinting_instance_table f new old').
-  { intros. unfold pick. vm_compute (assoc _ hinting_instance_table).
-    destruct (assoc f hinting_instance_table) as [[]|]; try reflexivity. }
   assert (E1 : forall new, pick hinting_instance_table "size" new (o_size s) = pick hinting_instance_table "size" new (o_size s'))
     by (intros; vm_compute; reflexivity).
   assert (E2 : forall new, pickl hinting_instance_table "coords" new (o_coords s) = pickl hinting_instance_table "coords" new (o_coords s'))
